@@ -38,4 +38,11 @@ F15 a57418b
 D9-pkgfields cffc758
 D9-noitems e7290a9
 F02 ceb5b67
+D17-D18 e7a7a75
+D16 e2e745d
+D19 078c91a
+D20 886dbaf
+D22 5648d1e
+D26 6e387c3
+D27 7ac08f8
 TAB
